@@ -7,6 +7,45 @@ from fxai.interp import Broken
 from fxai.state import IntV, FpV, Infeasible
 from fxai.lin import term_args, Lin
 
+from fractions import Fraction
+import struct
+
+
+def rn_float(fr):
+    """the binary32 value nearest to the rational fr (ties to even), as a Python float"""
+    if fr == 0:
+        return 0.0
+    sign = -1 if fr < 0 else 1
+    a = abs(fr)
+    e = a.numerator.bit_length() - a.denominator.bit_length()
+    if Fraction(2) ** e > a:
+        e -= 1
+    # a in [2^e, 2^(e+1)); 24 significant bits: quantum 2^(e-23)
+    q = a / (Fraction(2) ** (e - 23))
+    n = q.numerator // q.denominator
+    rem = q - n
+    if rem > Fraction(1, 2) or (rem == Fraction(1, 2) and n % 2 == 1):
+        n += 1
+    return sign * float(Fraction(n) * Fraction(2) ** (e - 23))
+
+
+def tie_candidates():
+    """raw values whose quotient by 65536 sits next to a binary32 rounding tie (and a few ordinary ones)"""
+    for k in range(24, 63):
+        for c in (1, 3, 5):
+            for j in (-1, 0, 1):
+                v = (1 << k) + c * (1 << (k - 24)) + j
+                if v < (1 << 63) - 1:
+                    yield v
+                    yield -v
+        for j in (-1, 0, 1):
+            v = (1 << k) + (1 << (k - 24)) + (1 << (k - 53 if k > 53 else 0)) + j
+            if v < (1 << 63) - 1:
+                yield v
+    for v in (0, 1, -1, 65536, 98304, -98304, 12345678901234567, (1 << 53) + (1 << 29) + 1):
+        yield v
+
+
 LIM = 2147483647.0
 EXTRA = [
     E("w_rt_d", ["fx"], "fx", "return fixed_t(static_cast<double>(as_fixed(a))).v;"),
@@ -82,7 +121,20 @@ def run(tier, seed):
                                   and cc is not None and cc[0] == "cfp" and cc[-1] == repr(65536.0))
                     V.oblige(ok)
                     if not ok:
-                        V.inconc("%s [%s]: result is not sitofp_float(raw) / 65536.0f: correct rounding not decided for this shape" % (w, cfg))
+                        # a different expression: look for an input whose result is not the correctly rounded value
+                        wit = None
+                        for raw in tie_candidates():
+                            o = r.conc((raw,))
+                            if o[0] != "ret" or o[1] != rn_float(Fraction(raw, 65536)):
+                                wit = (raw, o)
+                                break
+                        if wit:
+                            V.violation("fixed -> float is the correctly rounded value", "fixed_to_floating_point",
+                                        "%s(%d) [%s]: %s but the correctly rounded float of raw/65536 is %r" % (
+                                            w, wit[0], cfg, lib.out_str(wit[1]), rn_float(Fraction(wit[0], 65536))),
+                                        lib.rp(r, (wit[0],), "correctly rounded"))
+                        else:
+                            V.inconc("%s [%s]: result is not sitofp_float(raw) / 65536.0f: correct rounding not decided for this shape" % (w, cfg))
             # ---- fixed -> double -> fixed is the identity on |x| < 2^31
             # (on 2^31-1 <= |x| < 2^31 the conversion back is NaN by the range clause of this same property; the identity is
             #  decided on the range the two clauses agree on)
